@@ -30,6 +30,12 @@ CHECKS = {
         technique="property-based testing (proptest) with solved operands that place the result on / beside every unit boundary; oracle restates the unit-selection rule over exact rationals",
         text="Generator solves the second operand so that the exact result magnitude lands exactly on, one ulp beside, near and between the unit scales of the result type (and drives the best-fit step directly); the oracle is the statement itself evaluated in exact arithmetic, strict when every intermediate is exactly representable and tolerant by the rounding budget otherwise.",
         design="4/C05"),
+    "C06": dict(
+        engine="E2-progen",
+        technique="exhaustive enumeration of 1350 (+150) two-operand programs per back-end plus randomly generated derivation graphs; rustc's verdict per program against the verdict predicted from independent derivation tables",
+        text="Every ordered pair of the catalogue types and AmountT under + - * / == < is compiled in both back-ends (and the astronomical crate's types in f64); accepted programs carry the predicted result type as an ascription, rejected ones must produce an error on their own line. Random derivation graphs (squares, AmountT dividends, bystander types) extend the quantifier to generated definitions.",
+        note="trusted base: rustc/cargo diagnostics (JSON, primary span lines), the derivation tables under tables/; batching assumption re-checked in the thorough tier by compiling 100 programs alone",
+        design="4/C06"),
     "C07": dict(
         technique="exhaustive enumeration against an independently written definition table (exact rationals)",
         text="Every unit of every predefined quantity (112 main-crate units in both back-ends, 27 astronomical units in f64) is compared with the definition table; the space is finite and fully enumerated on every run.",
@@ -70,6 +76,12 @@ CHECKS = {
         technique="property-based testing (proptest) plus coverage-guided fuzzing (libFuzzer via cargo-fuzz, thorough tier) of all operation families; oracle: no panic inside the stated domain, the documented panic exactly for mixed units",
         text="Operation families of C01-C05, C08, C13-C15 on every IEEE class under f64 and on magnitudes spread over and beyond [1e-15, 1e17] under decimal with an explicit domain predicate; the quick tier also replays a committed coverage-minimised libFuzzer corpus (2000 inputs per back-end), the thorough tier runs a fresh libFuzzer campaign per back-end on the same decoder and check.",
         design="4/C18"),
+    "C19": dict(
+        engine="E2-progen",
+        technique="enumeration of the 16 x 8 named feature configurations plus Hypothesis-generated random feature subsets, each built through a probe crate; differential comparison of a fixed operation corpus between minimal and full configurations",
+        text="Configurations are a finite space: the thorough tier builds all 128, the quick tier every row, every column for all/none and a seeded sample; random subsets come from Hypothesis (seeded, shrinking to a minimal failing set). The probe's expectations (which quantities and operators a feature must expose) come from the independent derivation table, so a missing Cargo feature edge is a failure.",
+        note="trusted base: cargo's feature resolution and `cargo check` of a dependent crate; tables/catalogue.json",
+        design="4/C19"),
 }
 
 NOT_YET = {}
